@@ -212,7 +212,9 @@ def make_hostile(r: random.Random, scn: Dict[str, Any]) -> None:
     cfg = scn["config"]
     kind = r.choice(["cycle", "cycle", "missing_parent", "class_missing", "class_ambiguous", "from_without_to",
                      "count_and_range", "bad_dist", "no_ticksize", "group_twice", "no_class", "missing_group",
-                     "dup_component", "component_without_shares", "dup_hook", "bad_session"])
+                     "dup_component", "component_without_shares", "dup_hook", "bad_session",
+                     "market_class_not_market", "agent_class_not_agent", "structure", "bad_fundamental", "bad_corr",
+                     "bad_event"])
     scn["setup_only"] = True
     mg = cfg["simulation"]["markets"]
     ag = cfg["simulation"]["agents"]
@@ -286,6 +288,67 @@ def make_hostile(r: random.Random, scn: Dict[str, Any]) -> None:
         scn["probes"]["DUPH"] = {"hooks": [{"kind": "order", "before": True, "times": None},
                                            {"kind": "market", "before": False, "times": [0, 1]}], "dup_hook": r.randint(1, 2)}
         cfg["simulation"]["sessions"][0].setdefault("events", []).append("DUPH")
+    elif kind == "market_class_not_market":
+        _set_effective(cfg, r.choice(mg), "class", "FCNAgent")
+    elif kind == "agent_class_not_agent":
+        _set_effective(cfg, r.choice(ag), "class", "Market")
+    elif kind == "structure":
+        v = r.random()
+        sim = cfg["simulation"]
+        if v < 0.15:
+            del scn["config"]["simulation"]
+        elif v < 0.3:
+            del sim["markets"]
+        elif v < 0.45:
+            sim["markets"] = mg + [7]
+        elif v < 0.6:
+            sim["agents"] = "AG0"
+        elif v < 0.75:
+            sim["sessions"] = {"sessionName": 0}
+        elif v < 0.9:
+            del sim["sessions"][0]["sessionName"]
+        else:
+            t = r.choice(ag)
+            _strip_effective(cfg, t, ["markets"])
+    elif kind == "bad_fundamental":
+        t = r.choice(mg)
+        if r.random() < 0.5:
+            _set_effective(cfg, t, "fundamentalVolatility", -0.01)
+        else:
+            _strip_effective(cfg, t, ["marketPrice", "fundamentalPrice"])
+            _set_effective(cfg, t, "fundamentalPrice", r.choice([0.0, -5.0]))
+    elif kind == "bad_corr":
+        g = mg[0]
+        st = ref_resolve(cfg, g, ("from", "to"))
+        idx, _ = group_expansion(g, st, "numMarkets")
+        names = expected_names(g, st, idx)
+        v = r.random()
+        if v < 0.4:
+            cfg["simulation"]["fundamentalCorrelations"] = {"pairwise": [[names[0], names[-1]]]}
+        elif v < 0.7:
+            _set_effective(cfg, g, "fundamentalVolatility", 0.0)
+            other = names[-1] if len(names) > 1 else names[0]
+            cfg["simulation"]["fundamentalCorrelations"] = {"pairwise": [[names[0], other, 0.5]]}
+            if len(names) == 1:
+                errs = ["ValueError"]
+        else:
+            cfg["simulation"]["fundamentalCorrelations"] = {"matrix": []}
+            errs = ["NotImplementedError"]
+    elif kind == "bad_event":
+        g = mg[0]
+        st = ref_resolve(cfg, g, ("from", "to"))
+        idx, _ = group_expansion(g, st, "numMarkets")
+        tgt_name = expected_names(g, st, idx)[0]
+        v = r.random()
+        if v < 0.25:
+            cfg["BADE"] = {"class": "FundamentalPriceShock", "triggerTime": 0, "priceChangeRate": 0.1}
+        elif v < 0.5:
+            cfg["BADE"] = {"class": "OrderMistakeShock", "target": tgt_name, "triggerTime": 0, "priceChangeRate": 1, "orderVolume": 1, "orderTimeLength": 1}
+        elif v < 0.75:
+            cfg["BADE"] = {"class": "PriceLimitRule", "targetMarkets": tgt_name, "triggerChangeRate": 0.1}
+        else:
+            cfg["BADE"] = {"class": "TradingHaltRule", "targetMarkets": ["NO_SUCH_MARKET"], "triggerChangeRate": 0.1, "haltingTimeLength": 2}
+        cfg["simulation"]["sessions"][0].setdefault("events", []).append("BADE")
     elif kind == "bad_session":
         s = cfg["simulation"]["sessions"][0]
         v = r.random()
